@@ -252,6 +252,7 @@ impl Check for C18 {
             consistent_locks: false,
             max_weight: 5,
             allow_thresh: true,
+            binary: false,
         };
         let p = gen::gen_policy(src, &cfg);
         if lane == "concrete" {
